@@ -27,7 +27,7 @@ def gen_case(ctx, r, kind, total, backend, dup_ids=False):
     ops = list(g.ops) + ["H:" + ",".join(map(str, hs))]
     queries = [("*g",)]
     n = g.n()
-    ys = sorted(set(hs[:3] + [r.below(n) for _ in range(4 if n < 1000 else 2)]))
+    ys = sorted(set(hs[:2] + [r.below(n) for _ in range(3)])) if n < 1000 else sorted(set(hs[:1] + [r.below(n)]))
     for y in ys:
         queries.append(("*a", y))
     for _ in range(25):
@@ -137,14 +137,14 @@ def run(ctx):
     r = ctx.rng
     plan = []
     if ctx.thorough:
-        plan += [("chain", 5000, "mem", False), ("chain", 3000, "libc", False), ("fixedlen", 1500, "mem", False)]
-        plan += [(r.choice(["chain", "fixedlen"]), r.range(20, 900), r.choice(["mem", "libc"]), False) for _ in range(60)]
-        plan += [(r.choice(["branchy", "branchy-long"]), r.range(10, 400), r.choice(["mem", "mem", "libc"]), False) for _ in range(260)]
-        plan += [("branchy", r.range(8, 120), r.choice(["mem", "libc"]), True) for _ in range(60)]
+        plan += [("chain", 5000, "mem", False), ("chain", 2000, "libc", False), ("fixedlen", 1000, "mem", False)]
+        plan += [(r.choice(["chain", "fixedlen"]), r.range(20, 600), r.choice(["mem", "libc"]), False) for _ in range(30)]
+        plan += [(r.choice(["branchy", "branchy-long"]), r.range(10, 350), r.choice(["mem", "mem", "libc"]), False) for _ in range(130)]
+        plan += [("branchy", r.range(8, 120), r.choice(["mem", "libc"]), True) for _ in range(40)]
     else:
-        plan += [("chain", 450, "mem", False), ("chain", 300, "libc", False)]
+        plan += [("chain", 320, "mem", False), ("chain", 200, "libc", False)]
         plan += [(r.choice(["chain", "fixedlen"]), r.range(20, 250), r.choice(["mem", "libc"]), False) for _ in range(8)]
-        plan += [(r.choice(["branchy", "branchy-long"]), r.range(10, 160), r.choice(["mem", "mem", "libc"]), False) for _ in range(34)]
+        plan += [(r.choice(["branchy", "branchy-long"]), r.range(10, 140), r.choice(["mem", "mem", "libc"]), False) for _ in range(28)]
         plan += [("branchy", r.range(8, 60), r.choice(["mem", "libc"]), True) for _ in range(8)]
     gens = [gen_case(ctx, r, k, t, b, d) for (k, t, b, d) in plan]
     rc, out, err = vlib.run_bin(binp, input="".join(g[3] + "\n" for g in gens), timeout=3000)
